@@ -38,7 +38,15 @@ BODIES = {
     'struct-first-of-two': ('(si)s', lambda t: [[t, 7], 'z'], lambda v: v),
     'empty-array': ('as', lambda t: [[]], lambda v: v[0]),
     'falsy': ('i', lambda t: [0], lambda v: v[0]),
+    # replies of ordinary but not small size: an introspection document, a bulk result (well above 16 KiB, far below
+    # the protocol's 128 MiB)
+    'long-string': ('s', lambda t: [t + 'x' * 17000], lambda v: v[0]),
+    'big-array': ('ay', lambda t: [[(len(t) + i) % 256 for i in range(17000)]], lambda v: v[0]),
+    'many-strings': ('as', lambda t: [[t + str(i) for i in range(1100)]], lambda v: v[0]),
 }
+
+BIG_BODIES = ['long-string', 'big-array', 'many-strings']
+SMALL_BODIES = [k for k in BODIES if k not in BIG_BODIES]
 
 # per-call event scripts; R reply, E error, T deadline, D duplicate reply, L late reply, e duplicate error
 SCRIPTS = [('R',), ('E',), ('T',), ('R', 'D'), ('T', 'L'), ('R', 'T'), ('E', 'R'), ('E', 'e'), ('T', 'E'), (),
@@ -585,7 +593,7 @@ def build_calls(rng, n, scripts=None, deadline_all=None):
         script = scripts[i] if scripts else rng.choice(SCRIPTS)
         needs_t = 'T' in script
         timeout = (1.0 + i) if (needs_t or (deadline_all if deadline_all is not None else rng.random() < 0.4)) else None
-        calls.append(Call(i, script, rng.choice(list(BODIES)),
+        calls.append(Call(i, script, rng.choice(BIG_BODIES if rng.random() < 0.06 else SMALL_BODIES),
                           rng.choice(['nocheck', 'nocheck', 'match', 'mismatch', 'expect-none']),
                           timeout, rng.random() < 0.7))
     return calls
